@@ -31,10 +31,11 @@ class CompWorld:
     '''Base class.  Subclasses define menu/apply_op/done/final and keep everything that
     can influence the future (the real component, the reference model, counters) in
     attributes that are picklable and canonicalisable.'''
-    _canon_skip = ('facts', 'budget', 'params', 'last_tie_size', 'nops', 'wcount')
+    _canon_skip = ('facts', 'budget', 'params', 'last_tie_size', 'nops', 'wcount', 'trail')
 
     def __init__(self, params):
         self.params = params
+        self.trail = []
         self.budget = params.get('depth', 4)
         self.facts = []
         self.last_tie_size = 0
@@ -68,8 +69,15 @@ class CompWorld:
         w = self.wcount * 1e-9
         return w if self.params.get('weights', 'inc') == 'inc' else 1.0 - w
 
+    def recipe(self):
+        '''Replay-based fork for a world that cannot be pickled (mc.explorer.ReplaySnap).'''
+        from .explorer import ReplaySnap
+        params = self.params
+        return ReplaySnap(type(self), lambda: (params,), {}, self.trail)
+
     def apply(self, label):
         self.facts = []
+        self.trail.append(tuple(label))
         self.nops += 1
         saved = random.random
         random.random = self._next_weight
